@@ -41,7 +41,7 @@ use std::{
 
 use once_cell::sync::Lazy;
 use rustix::{
-    fs::{self as rustix_fs, Access, AtFlags},
+    fs as rustix_fs,
     mount::{FsMountFlags, FsOpenFlags, MountAttrFlags, OpenTreeFlags},
 };
 
@@ -602,10 +602,12 @@ impl ProcfsHandle {
         // then hidepid is probably not relevant.
         let is_subset = [/* subset=pid */ "stat", /* hidepid=n */ "1"]
             .iter()
-            .any(|&subpath| {
-                rustix_fs::accessat(&inner, subpath, Access::EXISTS, AtFlags::SYMLINK_NOFOLLOW)
-                    .is_err()
-            });
+            // NOTE: This is an lstat rather than faccessat2(2) on purpose. An
+            //       error means "masked" here, and faccessat2(2) also fails on
+            //       kernels and seccomp profiles older than Linux 5.8, where a
+            //       perfectly complete procfs would be taken for a masked one
+            //       (and the unmasked retry in open() refused for good).
+            .any(|&subpath| syscalls::fstatat(&inner, subpath).is_err());
 
         Ok(Self {
             inner,
